@@ -40,6 +40,12 @@ def cases(tier, rng):
         scheme = cards.pick(rng, ["ZM-VFNS"] * 3 + cards.SCHEMES)
         nfff = int(rng.integers(3, 7)) if scheme in ("FFNS", "FFN0") else int(rng.integers(3, 6))
         mc, mb, mt = exact_mass(rng, 1.1, 2.0), exact_mass(rng, 3.5, 5.5), exact_mass(rng, 30.0, 60.0)
+        if i % 8 == 5:
+            # masses whose square is exactly representable but for which a pow()-based square is known to be one ulp off
+            # (about 1% of all such masses; this is how F-15 shows): the wall must still sit exactly at (m*k)^2
+            mc = float(cards.pick(rng, [1.9990234375, 1.53515625, 1.3193359375, 1.8662109375]))
+            mb = float(cards.pick(rng, [5.2998046875, 4.3466796875, 3.99609375, 3.5771484375, 3.9697265625]))
+            mt = float(cards.pick(rng, [42.201171875, 59.7255859375, 59.693359375, 42.189453125]))
         ks = [float(cards.pick(rng, [0.5, 1.0, 2.0, 1.0])) for _ in range(3)]
         # keep the walls sorted
         while not (mc * ks[0] < mb * ks[1] < mt * ks[2]):
@@ -48,7 +54,7 @@ def cases(tier, rng):
         walls = [(mc * ks[0]) ** 2, (mb * ks[1]) ** 2, (mt * ks[2]) ** 2]
         pts = []
         for _ in range(4):
-            cls = cards.pick(rng, ["at", "below", "above", "random"])
+            cls = cards.pick(rng, ["at", "below", "above", "random"] if i % 8 != 5 else ["at", "at", "below", "above"])
             w = cards.pick(rng, walls)
             if cls == "at":
                 q2 = w
